@@ -454,7 +454,17 @@ def iteration_order(ctx: Ctx, rule: str) -> None:
     for node in ast.walk(loop):
         if isinstance(node, ast.If) and any(y is rec[0] for y in ast.walk(node)):
             guard = node
-    ok_guard = guard is not None and norm.equivalent(norm.formula(guard.test), norm.formula(ast.parse("params_obj_type != object_composition[-1]", mode="eval").body)) and not any(y is own[0] for y in ast.walk(guard))
+    # the guard with helper locals substituted (a hoisted `object_composition[-1]` is that expression)
+    gtest = guard.test if guard is not None else None
+    if gtest is not None:
+        fnode = ctx.repo.func(fref).node
+        env = {}
+        for s_ in ast.walk(fnode):
+            if isinstance(s_, ast.Assign) and len(s_.targets) == 1 and isinstance(s_.targets[0], ast.Name):
+                env.setdefault(s_.targets[0].id, []).append(s_.value)
+        env1 = {k: v[0] for k, v in env.items() if len(v) == 1 and k not in ("params_obj_type", "object_composition", "composites")}
+        gtest = norm.substitute(gtest, env1, None, 2)
+    ok_guard = guard is not None and norm.equivalent(norm.formula(gtest), norm.formula(ast.parse("params_obj_type != object_composition[-1]", mode="eval").body)) and not any(y is own[0] for y in ast.walk(guard))
     ok = bad is None and ok_args and ok_guard and n >= 2
     ctx.record(rule, "ORDER", fref, "post-order: components (guard: not the last type of states_chain) are yielded before the composite's own parameters, which are yielded unconditionally",
                ok, {"iteration_paths": n, "bad_sequence": bad, "recursion_args_ok": ok_args, "guard": ast.unparse(guard.test) if guard is not None else None},
